@@ -138,7 +138,8 @@ structure St where
   lost : Int := 0        -- diagnostic: rewards overwritten by stale-object settlement in the last end-block (F-C07a)
   lostDel : Int := 0     -- diagnostic: undistributed rewards of validators removed as empty in the last end-block (F-C07d)
 
-def u64 (x : Int) : Int := x % 18446744073709551616
+/-- `big.Int.Uint64()`: the low 64 bits of the absolute value -/
+def u64 (x : Int) : Int := ((x.natAbs % 18446744073709551616 : Nat) : Int)
 
 /-! ## validators -/
 
